@@ -95,6 +95,45 @@ func vpH_C03_T_changed() {
 	vpAuditLog(s.st, "a", false, 0, false)
 }
 
+// vpH_C03_T_changed_after_slow: one refresh (explorer's choice) is answered with an error only after the
+// operation time-out has passed (the loop has given up on it by then); later the record is replaced. The
+// leader steps down by the completion of the first attempt it issues after the change (at most one refresh is
+// issued between the change and the demotion), within tc + H + 2*timeout.
+func vpH_C03_T_changed_after_slow() {
+	tm := vpTimings[0]
+	s := vpLeadingInstance(tm, 0, nil)
+	s.kv.opLeft = 8
+	s.kv.faults = []int{vpFaultHang}
+	s.kv.hangLat = s.to + 300*time.Millisecond
+	s.kv.faultLeft = 1
+	s.kv.faultOps = "update"
+	tc := int64(-1)
+	go func() {
+		vpDelay("change", tm.H+tm.H/2, 3*tm.H+tm.H/2)
+		tc = vpNow()
+		s.kv.faultLeft = 0
+		s.st.write("env:other", "update", vpRecMk("other", "tok-other", 0), false, s.st.lastSeq)
+		vpEvent("changed")
+	}()
+	select {
+	case <-s.demoted:
+	case <-time.After(4*tm.H + tm.H + 2*s.to + time.Second):
+	}
+	vpCover("C03.changed-after-slow")
+	if tc < 0 {
+		vpEndPath("demoted-before-change") // three failures in a row are the other clause's business
+	}
+	vpAssert("C03.demote-after-change", s.cb.demotes >= 1 && !s.e.IsLeader())
+	vpAssert("C03.demote-after-change:bound", vpImplies(s.cb.demotes >= 1, s.cb.demoteAt <= tc+int64(tm.H+2*s.to)))
+	after := 0
+	for _, is := range s.st.issued {
+		if is.by == "a" && is.op == "update" && is.at > tc { // strictly later: an attempt issued at the very instant of the change may have preceded it
+			after++
+		}
+	}
+	vpAssert("C03.demote-after-change:next-attempt", after <= 1)
+}
+
 // vpH_C03_T_changed_then_cut: the record is replaced at a symbolic instant and the store stops answering right
 // after it has rejected the leader's next refresh (the read the leader may make to find out who took over is
 // never answered): the leader still steps down by tc + H + 2*timeout.
@@ -153,12 +192,14 @@ func vpC03UnreachableW(tm vpTiming, extra time.Duration) {
 	s.kv.lat = s.to - 1
 	s.kv.cutLat = s.to
 	s.kv.opLeft = 7
+	window := 2*tm.H + tm.H/2 + extra
 	if vpC03SymErr {
 		vpC03SymErr = false
 		s.st.symErr = true
+		window = tm.H / 2 // the fault begins before the first refresh: the error text is what varies here
 	}
 	go func() {
-		vpDelay("cut", 0, 2*tm.H+tm.H/2+extra)
+		vpDelay("cut", 0, window)
 		s.st.cut = true
 		vpEvent("cut")
 	}()
